@@ -109,6 +109,9 @@ def validate(chk, name, hdr, rows, timeout=1700):
 
 
 def run(chk):
+    for f in os.listdir(chk.replay_path("")):       # replay files of earlier runs would be mistaken for this run's
+        if re.match(r"violation-\d+\.json$", f):
+            os.remove(chk.replay_path(f))
     binary = vlib.build("cbor")
     tier = chk.tier
     stats = {"lines": 0, "by_action": {}, "types": set(), "values": 0, "mut_by_class": {}}
